@@ -21,6 +21,7 @@ EXPLANATION = (
     "`/` to <name>/exports.sy and anything else to <name>.sy next to the importing file, as the guide documents; "
     "(COLLISION) importing a different thing under an occupied name is an error."
     ' (COLLISION compares-entries) whether an occupied name is a collision is decided by comparing the existing entry with the one being inserted.'
+    " (IMPORT-PASS) `from m use x` does not depend on the order in which modules are processed (known finding); (START) the entry point is the main file's own `start`."
 )
 UNDECIDED = ("behavioural equivalence of a program and its partitions; re-exports resolve only if the exporting module was processed "
              "earlier (single pass in visit order) - reported as information.")
@@ -40,6 +41,7 @@ def run(F, rep, tier):
     path_forms(F, rep)
     import c05
     c05.start_rules(F, rep)
+    import_pass(F, rep)
 
 
 def visit_once(F, rep):
@@ -285,3 +287,26 @@ def path_forms(F, rep):
            "docs/guide.adoc documents the relative form, the leading `/` form, the trailing `/` (exports.sy) form and aliases")
     # std files cannot import relative files
     rep.ob("PATH-FORMS", "lib-cannot-import-files", "Cannot import files from the standard library" in t, "a library module importing a file is a syntax error", fn["sp"])
+
+
+def import_pass(F, rep, rule="IMPORT-PASS"):
+    """`from m use x` copies m's entry for x into the importing module's namespace, eagerly.  m's namespace is itself being
+    filled by the same pass (m's own `from .. use` lines), so whether x is there yet depends on which module is processed
+    first - and that order comes from the order of `use` lines (the loader's LIFO visit).  The pass is order independent
+    only if it is iterated to a fixed point (or the import is resolved lazily, like `use`)."""
+    rs = F.fn(NR + "resolve")
+    rgv = F.fn(R + "resolve_global_variables")
+    rep.analysed(rs)
+    rep.analysed(rgv)
+    reads_other = any(c["m"] == "get" and "namespaces" in pp(c["recv"]) for c in nodes(fn_body(rgv), "MethodCall"))
+    writes = any(c["m"] == "insert" for c in nodes(fn_body(rgv), "MethodCall"))
+    iterated = False
+    for n, parents in walk(fn_body(rs)):
+        if n.get("k") == "MethodCall" and callee(n) == R + "resolve_global_variables":
+            iterated = any(p.get("k") in ("Loop", "While") for p in parents)
+    rep.ob(rule, "resolve|imports-reach-a-fixed-point", iterated or not (reads_other and writes),
+           "the import pass is repeated until no namespace changes" if iterated else
+           "resolve() runs resolve_global_variables once per module; its FromUse arm reads another module's namespace while "
+           "that namespace is still being filled by the same pass: `from c use x`, where c has x only through its own "
+           "`from d use x`, is accepted or rejected depending on whether c was processed before (the order of `use` lines)",
+           rs["sp"])
